@@ -30,7 +30,14 @@ pub enum ErrClass {
 
 impl From<io::Error> for ErrClass {
     fn from(e: io::Error) -> ErrClass {
-        let payload = e.get_ref().map(|i| i.to_string()).unwrap_or_default();
+        // the failure may be carried by the error itself or anywhere in its source chain
+        let mut payload = e.to_string();
+        let mut src: Option<&(dyn std::error::Error + 'static)> = e.get_ref().map(|x| x as &(dyn std::error::Error + 'static));
+        while let Some(x) = src {
+            payload.push_str(" <- ");
+            payload.push_str(&x.to_string());
+            src = x.source();
+        }
         ErrClass::Io { kind: e.kind(), payload }
     }
 }
